@@ -81,3 +81,13 @@ CORPUS += [
     Mut('c04-norm-from-the-upper-triangle-only', 'torchtree/evolution/substitution_model/abstract.py', 'AbstractSubstitutionModel.norm', 'return -torch.sum(torch.diagonal(Q, dim1=-2, dim2=-1) * self.frequencies, -1)',
         'flux = self.frequencies.unsqueeze(-1) * Q\nreturn 2.0 * torch.triu(flux, diagonal=1).sum((-2, -1))', expect=[('C04.N', 'AbstractSubstitutionModel.norm::minus-sum-pi-Qii')]),
 ]
+CORPUS += [
+    Mut('c04-rate-matrix-multiplied-without-its-branch-axes', 'torchtree/evolution/substitution_model/abstract.py', '',
+        "            Q.unsqueeze(-3).unsqueeze(-3) * branch_lengths.unsqueeze(-1).unsqueeze(-1)\n", "            Q * branch_lengths[..., None, None]\n", mode='text',
+        expect=[('C04.E', 'NonSymmetricSubstitutionModel.p_t::one-matrix-per-branch-and-category')]),
+    Mut('c04-benign-branch-axes-written-with-none', 'torchtree/evolution/substitution_model/abstract.py', '',
+        "            Q.unsqueeze(-3).unsqueeze(-3) * branch_lengths.unsqueeze(-1).unsqueeze(-1)\n", "            Q[..., None, None, :, :] * branch_lengths[..., None, None]\n", mode='text', benign=True),
+    Mut('c04-gtr-rates-axis-under-the-rank-of-the-frequencies', 'torchtree/evolution/substitution_model/nucleotide.py', '',
+        "        if len(self.frequencies.shape[:-1]) != len(self.rates.shape[:-1]):\n            pi = self.frequencies.unsqueeze(0).unsqueeze(-2)\n            rates = self.rates.unsqueeze(-2)\n        elif len(self.frequencies.shape) == 1:",
+        "        if len(self.frequencies.shape) == 1:", mode='text', expect=[('C04.L', 'batched::evolution.substitution_model.nucleotide.GTR.q::self.rates.unsqueeze(0)')]),
+]
